@@ -92,3 +92,24 @@ Example C08_chain_of_three_refuted :
   apply_mod f20_d3 (apply_mod f20_d2 (apply_mod f20_d1 f20_o)) !! 1%N = None /\
   apply_mod (merge_mod (merge_mod f20_d1 f20_d2) f20_d3) f20_o !! 1%N = Some (VInt 5).
 Proof. vm_compute. split; reflexivity. Qed.
+
+(** ** tie to the source text (Generated/Facts.v): the pairs [ErrorQueue._mergeEvents] declares
+    impossible, and the pairs it merges only under the policy 'maximum', are exactly those of
+    the model's [merge_events]; every other pair is merged alike under both merging policies *)
+From Hermes Require Import Proofs.FactsTieClient.
+Theorem C08_bug_pairs_are_the_source_s : forall pol p l cur new,
+  merge_events pol (Some p) (Some l) cur new = MBug <->
+  pair_in (kind_name (ce_kind p)) (kind_name (ce_kind l)) Generated.Facts.merge_bug_pairs = true.
+Proof. exact merge_bug_tie. Qed.
+Print Assumptions C08_bug_pairs_are_the_source_s.
+Theorem C08_maximum_only_pairs_are_the_source_s : forall pol p l cur new,
+  pol <> RMaximum ->
+  pair_in (kind_name (ce_kind p)) (kind_name (ce_kind l)) Generated.Facts.merge_max_only_pairs = true ->
+  merge_events pol (Some p) (Some l) cur new = MNo.
+Proof. exact merge_max_only_tie. Qed.
+Print Assumptions C08_maximum_only_pairs_are_the_source_s.
+Theorem C08_other_pairs_policy_independent : forall p l cur new,
+  pair_in (kind_name (ce_kind p)) (kind_name (ce_kind l)) Generated.Facts.merge_max_only_pairs = false ->
+  merge_events RConservative (Some p) (Some l) cur new = merge_events RMaximum (Some p) (Some l) cur new.
+Proof. exact merge_policy_independent_tie. Qed.
+Print Assumptions C08_other_pairs_policy_independent.
